@@ -94,6 +94,7 @@ findmember(struct initparser *p, char *name)
 				return true;
 			}
 		} else {
+			p->sub->u.mem = m;
 			subobj(p, m->type, m->offset);
 			if (findmember(p, name))
 				return true;
